@@ -189,6 +189,10 @@ func NewHTTPClient(options ...HTTPClientOptionF) (*HTTPClient, error) {
 			return nil, err
 		}
 	}
+	// an option may have replaced the http client: the redirect hook that
+	// teaches the topology about a new leader has to be on the one in use
+	client.httpClient.CheckRedirect = newCheckRedirect(client)
+
 	// configure retrier
 	_ = client.setRetrier(client.maxRetries)
 
